@@ -393,9 +393,12 @@ RTRLIB_EXPORT int pfx_table_validate_r(struct pfx_table *pfx_table, struct pfx_r
 	}
 
 	while (!pfx_table_elem_matches(node->data, asn, prefix_len)) {
-		if (lrtr_ip_addr_is_zero(lrtr_ip_addr_get_bits(
-			    prefix, lvl++,
-			    1))) //post-incr lvl, trie_lookup is performed on child_nodes => parent lvl + 1
+		// a node as deep as the address is wide cannot have children: there is no further bit to branch on
+		if (lvl >= (prefix->ver == LRTR_IPV4 ? 32u : 128u))
+			node = NULL;
+		else if (lrtr_ip_addr_is_zero(lrtr_ip_addr_get_bits(
+				 prefix, lvl++,
+				 1))) //post-incr lvl, trie_lookup is performed on child_nodes => parent lvl + 1
 			node = trie_lookup(node->lchild, prefix, prefix_len, &lvl);
 		else
 			node = trie_lookup(node->rchild, prefix, prefix_len, &lvl);
